@@ -432,6 +432,10 @@ package shell_operator
 //@        && lastMeta.(task_metadata.HookMetadata).BindingContext == lastCombine.BindingContexts
 //@   ensures [failed-strict]        hook.nRun == old(hook.nRun) + 1 && ranErr != nil && (nCombine == old(nCombine) || lastCombine == nil) && dyntype(metaOf(t, ep0), task_metadata.HookMetadata)
 //@        && !metaOf(t, ep0).(task_metadata.HookMetadata).AllowFailure ==> result.Status == "Fail"
+// (also when other tasks were merged into the run: whatever they allow, the handled task's own binding
+// does not allow failure, so its contexts must not be dropped after a failed run)
+//@   ensures [failed-strict-head @C04] hook.nRun == old(hook.nRun) + 1 && ranErr != nil && dyntype(metaOf(t, ep0), task_metadata.HookMetadata)
+//@        && !metaOf(t, ep0).(task_metadata.HookMetadata).AllowFailure ==> result.Status == "Fail"
 //@   ensures [response-needs-success] nSetAdm > old(nSetAdm) ==> ranErr == nil && hook.nRun == old(hook.nRun) + 1
 //@   ensures [allow-merged @C04]    hook.nRun == old(hook.nRun) + 1 && ranErr != nil && result.Status == "Success" && nCombine == old(nCombine) + 1 && lastCombine != nil ==> allMergedAllowFailure
 //@   ensures [unlock-after-success] nUnlock > old(nUnlock) ==> result.Status == "Success"
